@@ -57,7 +57,8 @@ impl<U: tevec::prelude::TimeUnitTrait> Same for DateTime<U> {
 }
 impl Same for TimeDelta {
     fn same(&self, o: &Self) -> bool {
-        self == o
+        // by the fields, not by the library's own PartialEq (which is itself under test, law L11)
+        self.months == o.months && self.inner == o.inner
     }
     fn show(&self) -> String {
         format!("{self:?}")
@@ -595,10 +596,23 @@ fn run_all(ctx: &mut Ctx) {
     order_laws::<DateTime<Millisecond>>(&mut t, "DateTime<ms>", &tv.iter().map(|v| DateTime::new(*v)).collect::<Vec<_>>(), |a, b| a.0.partial_cmp(&b.0), |x| x.show());
     order_laws::<DateTime<Microsecond>>(&mut t, "DateTime<us>", &tv.iter().map(|v| DateTime::new(*v)).collect::<Vec<_>>(), |a, b| a.0.partial_cmp(&b.0), |x| x.show());
     // durations: ordered by (months, month-free part), NaT last
-    let mut tds: Vec<TimeDelta> = ["0s", "1s", "-1s", "1d", "1mo", "1mo1s", "-1mo", "-2y1d", "2y"].iter().map(|s| TimeDelta::parse(s).unwrap()).collect();
+    // sub-microsecond differences and durations beyond 292 years (their nanosecond / microsecond counts do not fit i64)
+    let mut tds: Vec<TimeDelta> = ["0s", "1s", "-1s", "1d", "1mo", "1mo1s", "-1mo", "-2y1d", "2y", "1ns", "1000ns", "1200ns", "1500ns", "110000d", "150000d", "150000d1ns", "-150000d", "1mo150000d", "1mo110000d"]
+        .iter()
+        .map(|s| TimeDelta::parse(s).unwrap())
+        .collect();
     tds.push(TimeDelta::nat());
     tds.push(TimeDelta::nat());
     order_laws::<TimeDelta>(&mut t, "TimeDelta", &tds, |a, b| (a.months, a.inner).partial_cmp(&(b.months, b.inner)), |x| x.show());
+    // (L11) the equality the run / tie logic relies on: two durations are equal iff months and month-free part are
+    t.ctx.fam("laws").states += (tds.len() * tds.len()) as u64;
+    for a in &tds {
+        for b in &tds {
+            let (a1, b1) = (*a, *b);
+            let want = a.months == b.months && a.inner == b.inner;
+            t.truth("L11 a == b iff the fields are equal", None, "TimeDelta", format!("({}, {})", a.show(), b.show()), catch(move || (a1 == b1) == want && (a1 != b1) == !want), "library equality == field equality");
+        }
+    }
 }
 
 fn main() {
